@@ -1,5 +1,6 @@
 import Holpy.Common.Sexp
 import Holpy.C07.Model
+import Holpy.C07.Text
 import Holpy.C07.Gen
 /-
 Line protocol of the C07 model (one s-expression in, one out); strings are percent-encoded atoms
@@ -8,6 +9,13 @@ Line protocol of the C07 model (one s-expression in, one out); strings are perce
   (parse (TOK ...))   -> SKEL | none               model parser on a token list
   (lex TEXT)          -> (TOK ...) | none          model lexer on a printed text
   (parsetext TEXT)    -> SKEL | none               lexer, then parser
+  (printtext UNI SKEL) -> TEXT                      text of the model printer (no line limit)
+  (namesok SKEL)      -> T | F                      every identifier of the skeleton is NameOK
+  (printty UNI TY)    -> (TOK ...)                 tokens of the model type printer
+  (parsetytext TEXT)  -> TY | none                 lexer, then the model parser for rule `type`
+  (printthm UNI (SKEL ...) SKEL) -> (TOK ...)      tokens of the model sequent printer
+  (parsethmtext TEXT) -> ((SKEL ...) SKEL) | none  lexer, then the model parser for rule `thm`
+TY = (tvar s) | (stvar s) | (fn a b) | (con name (TY ...))
 SKEL = (atom s) | (app f a) | (bin o l r) | (un o a) | (binder b x body) | (ite c a b)
 TOK  = lp | rp | dot | if | then | else | (sym s) | (id s)
 -/
@@ -40,35 +48,69 @@ def enc (s : String) : String :=
   if s = "" then "%e" else
   String.ofList (s.toList.flatMap fun c => if safe.contains c then [c] else '%' :: hexDigits c.toNat ++ ['%'])
 
+def toCodes (s : String) : List Nat := s.toList.map Char.toNat
+def ofCodes (cs : List Nat) : String := String.ofList (cs.map Char.ofNat)
+
 partial def skelOf : Sexp → Option Skel
-  | .list [.atom "atom", .atom s] => some (.atom (dec s))
+  | .list [.atom "atom", .atom s] => some (.atom (toCodes (dec s)))
   | .list [.atom "app", f, a] => do some (.app (← skelOf f) (← skelOf a))
   | .list [.atom "bin", o, l, r] => do some (.bin (← o.toNat?) (← skelOf l) (← skelOf r))
   | .list [.atom "un", o, a] => do some (.un (← o.toNat?) (← skelOf a))
-  | .list [.atom "binder", b, .atom x, body] => do some (.binder (← b.toNat?) (dec x) (← skelOf body))
+  | .list [.atom "binder", b, .atom x, body] => do some (.binder (← b.toNat?) (toCodes (dec x)) (← skelOf body))
   | .list [.atom "ite", c, a, b] => do some (.ite (← skelOf c) (← skelOf a) (← skelOf b))
   | _ => none
 
 partial def skelTo : Skel → Sexp
-  | .atom s => .list [.atom "atom", .atom (enc s)]
+  | .atom s => .list [.atom "atom", .atom (enc (ofCodes s))]
   | .app f a => .list [.atom "app", skelTo f, skelTo a]
   | .bin o l r => .list [.atom "bin", Sexp.ofNat o, skelTo l, skelTo r]
   | .un o a => .list [.atom "un", Sexp.ofNat o, skelTo a]
-  | .binder b x body => .list [.atom "binder", Sexp.ofNat b, .atom (enc x), skelTo body]
+  | .binder b x body => .list [.atom "binder", Sexp.ofNat b, .atom (enc (ofCodes x)), skelTo body]
   | .ite c a b => .list [.atom "ite", skelTo c, skelTo a, skelTo b]
 
 def tokTo : Tok → Sexp
   | .lp => .atom "lp" | .rp => .atom "rp" | .dot => .atom "dot"
   | .kif => .atom "if" | .kthen => .atom "then" | .kelse => .atom "else"
   | .sym s => .list [.atom "sym", .atom (enc (Gen.symbols.getD s "?"))]
-  | .id s => .list [.atom "id", .atom (enc s)]
+  | .id s => .list [.atom "id", .atom (enc (ofCodes s))]
 
 def tokOf : Sexp → Option Tok
   | .atom "lp" => some .lp | .atom "rp" => some .rp | .atom "dot" => some .dot
   | .atom "if" => some .kif | .atom "then" => some .kthen | .atom "else" => some .kelse
   | .list [.atom "sym", .atom s] => some (.sym (Gen.symbols.idxOf (dec s)))
-  | .list [.atom "id", .atom s] => some (.id (dec s))
+  | .list [.atom "id", .atom s] => some (.id (toCodes (dec s)))
   | _ => none
+
+mutual
+partial def tyOf : Sexp → Option Ty
+  | .list [.atom "tvar", .atom s] => some (.tvar (toCodes (dec s)))
+  | .list [.atom "stvar", .atom s] => some (.stvar (toCodes (dec s)))
+  | .list [.atom "fn", a, b] => do some (.fn (← tyOf a) (← tyOf b))
+  | .list [.atom "con", .atom n, .list args] => do some (.con (toCodes (dec n)) (← tysOf args))
+  | _ => none
+partial def tysOf : List Sexp → Option TyList
+  | [] => some .nil
+  | x :: xs => do some (.cons (← tyOf x) (← tysOf xs))
+end
+
+mutual
+partial def tyTo : Ty → Sexp
+  | .tvar s => .list [.atom "tvar", .atom (enc (ofCodes s))]
+  | .stvar s => .list [.atom "stvar", .atom (enc (ofCodes s))]
+  | .fn a b => .list [.atom "fn", tyTo a, tyTo b]
+  | .con n args => .list [.atom "con", .atom (enc (ofCodes n)), .list (tysTo args)]
+partial def tysTo : TyList → List Sexp
+  | .nil => []
+  | .cons t ts => tyTo t :: tysTo ts
+end
+
+def namesOKb (S : List (List Nat)) : Skel → Bool
+  | .atom s => NameOK S s
+  | .app f a => namesOKb S f && namesOKb S a
+  | .bin _ l r => namesOKb S l && namesOKb S r
+  | .un _ a => namesOKb S a
+  | .binder _ x body => NameOK S x && idShaped x && namesOKb S body
+  | .ite c a b => namesOKb S c && namesOKb S a && namesOKb S b
 
 def handle (line : String) : String :=
   match Sexp.parse line with
@@ -84,11 +126,42 @@ def handle (line : String) : String :=
       | none => "none"
     | none => "bad-op"
   | some (.list [.atom "lex", .atom s]) =>
-    match lex Gen.symbols (dec s) with
+    match lex Gen.symbolsC (toCodes (dec s)) with
     | some toks => toString (Sexp.list (toks.map tokTo))
     | none => "none"
+  | some (.list [.atom "printtext", u, t]) =>
+    match u.toBool?, skelOf t with
+    | some uni, some sk => enc (ofCodes (printText Gen.table Gen.ladder uni sk))
+    | _, _ => "bad-op"
+  | some (.list [.atom "namesok", t]) =>
+    match skelOf t with
+    | some sk => toString (Sexp.ofBool (namesOKb Gen.symbolsC sk))
+    | none => "bad-op"
+  | some (.list [.atom "printty", u, t]) =>
+    match u.toBool?, tyOf t with
+    | some uni, some ty => toString (Sexp.list ((printTy Gen.tySyms uni ty).map tokTo))
+    | _, _ => "bad-op"
+  | some (.list [.atom "parsetytext", .atom s]) =>
+    match lex Gen.symbolsC (toCodes (dec s)) with
+    | some toks =>
+      match parseTy Gen.tySyms toks with
+      | some ty => toString (tyTo ty)
+      | none => "none"
+    | none => "none"
+  | some (.list [.atom "printthm", u, .list hs, c]) =>
+    match u.toBool?, hs.mapM skelOf, skelOf c with
+    | some uni, some hyps, some concl =>
+      toString (Sexp.list ((printThm Gen.table Gen.ladder Gen.seqSyms uni hyps concl).map tokTo))
+    | _, _, _ => "bad-op"
+  | some (.list [.atom "parsethmtext", .atom s]) =>
+    match lex Gen.symbolsC (toCodes (dec s)) with
+    | some toks =>
+      match parseThm Gen.table Gen.ladder Gen.seqSyms toks with
+      | some (hyps, c) => toString (Sexp.list [.list (hyps.map skelTo), skelTo c])
+      | none => "none"
+    | none => "none"
   | some (.list [.atom "parsetext", .atom s]) =>
-    match lex Gen.symbols (dec s) with
+    match lex Gen.symbolsC (toCodes (dec s)) with
     | some toks =>
       match parseSkel Gen.table Gen.ladder toks with
       | some sk => toString (skelTo sk)
